@@ -13,7 +13,7 @@ over harness predicates) are real testtools matchers; the Lean side only sees th
 os.path / tarfile / warnings called directly), for every value that can reach the leaf (found by a dry
 run with recording stand-ins, plus every sub-value of the matchee).  `(pred id msgkind rows...)` is
 MatchesPredicate(<harness predicate>, <message with one / no / two conversions or empty>): the table is
-the predicate's own truth value, the `message % matchee` step is modelled in Lean.
+the predicate's own truth value, the `message % (matchee,)` step is modelled in Lean.
 """
 import copy, doctest, os, random, re, stat, sys, tarfile, tempfile, warnings
 from harness.core import Prop
@@ -366,7 +366,7 @@ class C06(Prop):
                 'The hand-written model is tied to the code by a differential check over random value-directed expressions with forced set orders.',
         'note': 'partial: finding D5 (class ambiguousSetwise) excluded from the soundness/determinism theorems; opaque leaves (regex, doctest, filesystem, '
                 'warnings, MatchesPredicate over harness predicates) are tested against an independent oracle, not proved; Python ==, <, in, len, iter, '
-                'getattr on the value universe are modelled, not verified; MatchesPredicate on tuple matchees is outside the C06 domain (see C07 finding)',
+                'getattr on the value universe are modelled, not verified',
         'technique': 'Lean 4 mutual structural induction over a nested matcher AST (matchImpl following the code vs. a declarative spec), executable '
                      'spec shared with a differential correspondence check (value-directed generator, forced hash-set orders, independent oracles)',
     }
